@@ -9,15 +9,19 @@ import (
 	"io"
 	"net/http"
 	"net/url"
+	"runtime"
+	"sync"
 	"time"
 
 	"github.com/tmpim/casket/zzverif/verifrt"
 )
 
 type zzRetryBackend struct {
-	failing  bool
-	calls    int
-	lastBody []byte
+	failing   bool
+	failFirst int // fail this many calls, then succeed (used when failing is false)
+	calls     int
+	lastBody  []byte
+	mismatch  bool // a call carried a body other than the one its request was sent with
 }
 
 func (b *zzRetryBackend) RoundTrip(req *http.Request) (*http.Response, error) {
@@ -25,8 +29,12 @@ func (b *zzRetryBackend) RoundTrip(req *http.Request) (*http.Response, error) {
 	b.lastBody = nil
 	if req.Body != nil {
 		b.lastBody, _ = io.ReadAll(req.Body)
+		req.Body.Close() // RoundTrip must always close the body, including on errors
 	}
-	if b.failing {
+	if want := req.Header.Get("X-Want-Body"); want != "" && want != string(b.lastBody) {
+		b.mismatch = true
+	}
+	if b.failing || b.calls <= b.failFirst {
 		return nil, errors.New("connection refused")
 	}
 	return &http.Response{StatusCode: 200, Header: http.Header{}, Body: io.NopCloser(bytes.NewReader([]byte("ok")))}, nil
@@ -64,15 +72,19 @@ func VerifH05cRetries() {
 	verifrt.Terminates()
 	n := verifrt.IntRange("hosts", 2, 3)
 	var pol Policy
-	switch verifrt.Choose("policy", 3) {
+	// (policies without a random tie-break, so that a native replay follows the same attempts)
+	switch verifrt.Choose("policy", 2) {
 	case 0:
 		pol = &First{}
-	case 1:
-		pol = &RoundRobin{}
 	default:
-		pol = &LeastConn{}
+		pol = &RoundRobin{}
 	}
-	u := &staticUpstream{from: "/", MaxFails: 1, FailTimeout: 10 * time.Second, TryDuration: 3 * time.Second, TryInterval: 250 * time.Millisecond, Policy: pol}
+	// retry window and pause between attempts: roomy, equal, and a window shorter than one pause --
+	// a retry is attempted as long as the window has not elapsed when the failure is noticed
+	tk := verifrt.Choose("try-window", 3)
+	tryDur := []time.Duration{3 * time.Second, 250 * time.Millisecond, 500 * time.Millisecond}[tk]
+	tryInt := []time.Duration{250 * time.Millisecond, 250 * time.Millisecond, time.Second}[tk]
+	u := &staticUpstream{from: "/", MaxFails: 1, FailTimeout: 10 * time.Second, TryDuration: tryDur, TryInterval: tryInt, Policy: pol}
 	bes := make([]*zzRetryBackend, n)
 	anyHealthy := false
 	for i := range bes {
@@ -93,6 +105,19 @@ func VerifH05cRetries() {
 		ContentLength: int64(len(body)), Body: io.NopCloser(bytes.NewReader(body))}
 	w := &zzRetryW{}
 	status, _ := p.ServeHTTP(w, r)
+	nfailing := 0
+	for _, b := range bes {
+		if b.failing {
+			nfailing++
+		}
+	}
+	// the short windows leave room for exactly one retry (the second failure is noticed after the
+	// window has elapsed), so a healthy backend must be reached only if at most one other fails
+	reachable := anyHealthy && (tk == 0 || nfailing <= 1)
+	if anyHealthy && !reachable {
+		verifrt.Observe("retry", status, w.status)
+		return
+	}
 	if anyHealthy {
 		verifrt.Assert(status == 0 && w.status == 200 && string(w.body) == "ok", "answered-by-a-healthy-backend")
 		served := 0
@@ -112,4 +137,50 @@ func VerifH05cRetries() {
 		}
 	}
 	verifrt.Observe("retry", status, w.status)
+}
+
+// VerifH05dConcurrentRetry: two uploads at the same time, the first backend failing once: every
+// attempt of each request -- in particular the retry that happens while the other upload is being
+// handled -- carries that request's own complete body.
+func VerifH05dConcurrentRetry() {
+	verifrt.Terminates()
+	verifrt.Concurrent(verifrt.Tier()) // goroutines interleave where they block (sleep between attempts, locks); thorough: one preemption
+	if verifrt.Confirming() {
+		// the native replay of a counterexample: one scheduler thread, so that sync.Pool hands a
+		// released object to the next taker as the engine's pool model does
+		defer runtime.GOMAXPROCS(runtime.GOMAXPROCS(1))
+	}
+	u := &staticUpstream{from: "/", MaxFails: 1, FailTimeout: 10 * time.Second, TryDuration: 3 * time.Second, TryInterval: 250 * time.Millisecond, Policy: &First{}}
+	bes := []*zzRetryBackend{{failFirst: 1}, {}}
+	for _, be := range bes {
+		h, err := u.NewHost("http://backend")
+		if err != nil {
+			verifrt.Fail("newhost")
+			return
+		}
+		h.ReverseProxy.Transport = be
+		h.ReverseProxy.FlushInterval = 0
+		u.Hosts = append(u.Hosts, h)
+	}
+	p := Proxy{Upstreams: []Upstream{u}}
+	bodies := []string{"AAAA", "BB"}
+	statuses := make([]int, 2)
+	var wg sync.WaitGroup
+	for i := range bodies {
+		wg.Add(1)
+		go func(i int) {
+			defer wg.Done()
+			r := &http.Request{Method: "POST", URL: &url.URL{Path: "/x"}, Header: http.Header{"X-Want-Body": []string{bodies[i]}}, Host: "site", RemoteAddr: "1.2.3.4:5",
+				ContentLength: int64(len(bodies[i])), Body: io.NopCloser(bytes.NewReader([]byte(bodies[i])))}
+			w := &zzRetryW{}
+			p.ServeHTTP(w, r)
+			statuses[i] = w.status
+		}(i)
+	}
+	wg.Wait()
+	for _, be := range bes {
+		verifrt.Assert(!be.mismatch, "every-attempt-carries-its-own-requests-body")
+	}
+	verifrt.Assert(statuses[0] == 200 && statuses[1] == 200, "both-uploads-answered")
+	verifrt.Observe("concurrent-retry", bes[0].calls+bes[1].calls)
 }
